@@ -126,7 +126,7 @@ def pass_equiv(repo, res):
             raise AnalysisError(f"anchor vanished: optimizer.{fn}")
         res.functions.add(opt.funcs[fn].key)
 
-    DEF_EXTENTS = {"FE0": (1, 3, 2, 3), "FE1": (1, 3, 2, 3), "FE2": (1, 3, 2, 6), "FE3": (1, 3, 2, 3), "FE4": (1, 3, 2, 3), "w": (15,), "coordinate_dofs": (9,),
+    DEF_EXTENTS = {"FE0": (2, 3, 2, 3), "FE1": (1, 3, 2, 3), "FE2": (1, 3, 2, 6), "FE3": (1, 3, 2, 3), "FE4": (1, 3, 2, 3), "w": (15,), "coordinate_dofs": (9,),
                    "entity_local_index": (2,), "quadrature_permutation": (2,)}
 
     def compare(key, label, before, after, outputs, loc, extents=None):
